@@ -208,7 +208,7 @@ proof! {
 }
 
 proof! {
-    //@ props=C11,C01 tier=quick
+    //@ props=C11,C01,C07 tier=quick
     fn c11_roundtrip_u32_vec_slice() unwind(7) {
         let v = sym::u32_();
         let mut out: Vec<u8> = Vec::new();
@@ -221,7 +221,7 @@ proof! {
 }
 
 proof! {
-    //@ props=C11 tier=quick
+    //@ props=C11,C07 tier=quick
     fn c11_roundtrip_i32_bytesmut_ctx() unwind(7) {
         let v = sym::i32_();
         let mut out = BytesMut::new();
